@@ -38,7 +38,7 @@ func init() {
 	registry["C02"] = &propCfg{
 		Engine: chunk.Engine{}, EngineName: "chunk", Level: "exploration",
 		QuickRuns: 50000, ThoroughRuns: 600000, QuickCapS: 60, ThoroughCapS: 900,
-		Rule: "one run = one document written by the independent JSON/CBOR/UBJSON writers (1 in 4 then corrupted), delivered under every single cut, all 1-byte chunks, all cut pairs if len<=24, seeded cut sets (incl. empty writes) and seeded read plans (eof with/after data); evaluations = parser executions; a case is non-trivial if a cut lands strictly inside a multi-byte token (or the document is corrupted) and distinct by (document, entry point, cut set / read plan)",
+		Rule: "one run = one document written by the independent JSON/CBOR/UBJSON writers (1 in 4 then corrupted), delivered under every single cut, all 1-byte chunks, all cut pairs if len<=24, seeded cut sets (incl. empty writes) and seeded read plans (eof with/after data); evaluations = parser executions; a case is non-trivial if a cut lands strictly inside a multi-byte token (or the document is corrupted) and distinct by (document, entry point, cut set / read plan); corruptions include whitespace-like bytes that only some classifiers accept and lenient syntax (BOMs, comments, CBOR tags / magic, UBJSON no-ops) placed at the start of the input or of a token; 1 run in 800 uses an extreme shape (2-3 MiB tokens also inside containers, 10^5 levels, 2.6*10^5 elements, 2^20+1 typed nulls) under a reduced schedule set with event streams compared by digest; reader plans include empty reads (0, nil)",
 		Components: map[string][]string{
 			"real": {"json.Parser", "ubjson.Parser", "cborl.Parser", "Parse/ParseString/Write/ParseReader entry points", "io.Copy"},
 			"stub": {"io.Reader (simkit.Reader)", "downstream visitor (simkit.Tap recorder)"}},
@@ -48,7 +48,7 @@ func init() {
 	registry["C18"] = &propCfg{
 		Engine: pull.Engine{}, EngineName: "pull", Level: "exploration",
 		QuickRuns: 500000, ThoroughRuns: 10000000, QuickCapS: 60, ThoroughCapS: 900,
-		Rule: "one run = one stream of k in [0,6] top-level values from the independent writers, read through 3-6 decoder/reader plans (NewBytesDecoder, or NewDecoder with buffer size from {1,2,3,7,16,64,4096}, seeded short-read sizes, EOF with or after the data, optional truncation inside a value); evaluations = decoder plans executed; distinct by (stream bytes, constructor, buffer size, read plan, eof mode); every plan is non-trivial (k+1 Next calls against a scheduled reader)",
+		Rule: "one run = one stream of k in [0,6] top-level values from the independent writers, read through 3-6 decoder/reader plans (NewBytesDecoder, or NewDecoder with buffer size from {1,2,3,7,16,64,4096}, seeded short-read sizes, EOF with or after the data, optional truncation inside a value); evaluations = decoder plans executed; distinct by (stream bytes, constructor, buffer size, read plan, eof mode); every plan is non-trivial (k+1 Next calls against a scheduled reader); reader plans include empty reads (0, nil), concrete reader types, and readers that receive the stream only after the decoder was constructed; 1 run in 1500 is a stream around one extreme shape",
 		Components: map[string][]string{
 			"real": {"json.Decoder", "ubjson.Decoder", "cborl.Decoder", "the three push parsers (per-value reference)"},
 			"stub": {"io.Reader (simkit.Reader)", "downstream visitor (simkit.Tap recorder)"}},
@@ -57,7 +57,7 @@ func init() {
 	registry["C03"] = &propCfg{
 		Engine: hostile.Engine{}, EngineName: "hostile", Level: "exploration",
 		QuickRuns: 100000, ThoroughRuns: 4000000, QuickCapS: 60, ThoroughCapS: 900,
-		Rule: "one run = one valid stream from the independent writers, then either 6-15 hostile inputs derived from it (1-4 seeded corruptions: bit flip, byte replace, interesting-byte replace/insert, delete, truncate, length inflation; splices; pure random bytes), each delivered through 2-3 of {Parse, ParseString, Write* under a seeded chunking, ParseReader and Decoder.Next loops under seeded short reads / buffer sizes / EOF modes}, or (1 run in 3) every strict prefix ending inside a value (96 sampled if more) through the five entry points that know the end; evaluations = guarded entry-point executions; distinct by (input bytes, entry, schedule); all are non-trivial (hostile or truncated input)",
+		Rule: "one run = one valid stream from the independent writers, then either 6-15 hostile inputs derived from it (1-4 seeded corruptions: bit flip, byte replace, interesting-byte replace/insert, delete, truncate, length inflation; splices; pure random bytes), each delivered through 2-3 of {Parse, ParseString, Write* under a seeded chunking, ParseReader and Decoder.Next loops under seeded short reads / buffer sizes / EOF modes}, or (1 run in 3) every strict prefix ending inside a value (96 sampled if more) through the five entry points that know the end; evaluations = guarded entry-point executions; distinct by (input bytes, entry, schedule); all are non-trivial (hostile or truncated input); further scenario kinds: truncation also inside complete RFC 8949 items outside the library's subset (tags, half floats, simple values, indefinite strings); memScaling (1 in 1500: exact allocation for one 4 MiB and one 8 MiB token in 4-100 KiB pieces must about double); stackBomb (1 in 1000: 2^20-2^21 nesting levels, closed at once or not at all, under a 64 MiB stack limit); empty reads (0, nil) in reader plans",
 		Components: map[string][]string{
 			"real": {"json/ubjson/cborl Parser", "json/ubjson/cborl Decoder", "io.Copy"},
 			"stub": {"io.Reader (simkit.Reader)", "downstream visitor (counting sink)"}},
@@ -67,7 +67,7 @@ func init() {
 	registry["C16"] = &propCfg{
 		Engine: fault.Engine{}, EngineName: "fault", Level: "fault_enumeration",
 		QuickRuns: 600000, ThoroughRuns: 8000000, QuickCapS: 60, ThoroughCapS: 900,
-		Rule: "one run = one generated event stream / document / Go value and a dry run counting W writes (sink side: json with options, ubjson, cborl encoders incl. extended events) or W visitor events (producer side: three parsers via Parse/ParseString/Write*/ParseReader/Decoder.Next under seeded chunking, gotype.Fold and Iterator.Fold over the type catalogue, a quarter with user-defined folders (gotype.Folders) that forward errors, EnsureExtVisitor adapters); then the failure is injected at EVERY index k<W (61 sampled + first/last if W>64); evaluations = injected executions; each is non-trivial (the fault fired) and distinct by (scenario, k)",
+		Rule: "one run = one generated event stream / document / Go value and a dry run counting W writes (sink side: json with options, ubjson, cborl encoders incl. extended events) or W visitor events (producer side: three parsers via Parse/ParseString/Write*/ParseReader/Decoder.Next under seeded chunking, gotype.Fold and Iterator.Fold over the type catalogue, a quarter with user-defined folders (gotype.Folders) that forward errors, EnsureExtVisitor adapters); then the failure is injected at EVERY index k<W (61 sampled + first/last if W>64); evaluations = injected executions; each is non-trivial (the fault fired) and distinct by (scenario, k); parser producers also run on one long-lived Parser after earlier complete / cut-short / visitor-failed documents, over streams of 1-3 values, on inputs that are refused in the end (every event before the refusal), and behind a reader that returns data together with a non-EOF error",
 		Components: map[string][]string{
 			"real": {"json/ubjson/cborl Visitor (encoders)", "json/ubjson/cborl Parser and Decoder", "gotype.Fold / Iterator", "EnsureExtVisitor adapters (array.go, map.go, string.go)"},
 			"stub": {"io.Writer (simkit.Writer, fails permanently from write k)", "downstream visitor (simkit.Tap returning a unique error at event k)", "io.Reader (simkit.Reader)"}},
@@ -85,7 +85,7 @@ func init() {
 	registry["C17"] = &propCfg{
 		Engine: reuse.Engine{}, EngineName: "reuse", Level: "exploration",
 		QuickRuns: 600000, ThoroughRuns: 8000000, QuickCapS: 60, ThoroughCapS: 900,
-		Rule: "one run = one long-lived instance of a drawn kind (json/ubjson/cborl encoder incl. extended events; push parser via Write under per-document chunk schedules; Parser.Parse/ParseString called repeatedly; byte and reader pull decoders; fold Iterator, a quarter of them created with user-defined folders (gotype.Folders); Unfolder with SetTarget per document, optional Reset and key cache) processing a seeded history of 1-6 complete documents and then a probe; evaluations = histories executed; distinct by (kind, history, schedules, probe); every history is non-trivial (>= 1 prior document)",
+		Rule: "one run = one long-lived instance of a drawn kind (json/ubjson/cborl encoder incl. extended events; push parser via Write under per-document chunk schedules; Parser.Parse/ParseString called repeatedly; byte and reader pull decoders; fold Iterator, a quarter of them created with user-defined folders (gotype.Folders); Unfolder with SetTarget per document, optional Reset and key cache) processing a seeded history of 1-6 complete documents and then a probe; evaluations = histories executed; distinct by (kind, history, schedules, probe); every history is non-trivial (>= 1 prior document); unfolder histories pass strings as views into ONE buffer that every document overwrites (a third), are streams of similar records of one type (a sixth), and contain target types that SetTarget must refuse every time; parser histories contain extreme shapes (1 in 500)",
 		Components: map[string][]string{
 			"real": {"json/ubjson/cborl Visitor", "json/ubjson/cborl Parser", "json/ubjson/cborl Decoder", "gotype.Iterator", "gotype.Unfolder"},
 			"stub": {"io.Writer (simkit.Writer)", "io.Reader (simkit.Reader)", "downstream visitor (simkit.Tap)"}},
@@ -94,7 +94,7 @@ func init() {
 	registry["C20"] = &propCfg{
 		Engine: kcache.Engine{}, EngineName: "kcache", Level: "exploration",
 		QuickRuns: 300000, ThoroughRuns: 6000000, QuickCapS: 60, ThoroughCapS: 900,
-		Rule: "one run = one Unfolder with EnableKeyCache(n), n drawn from {0,1,2,3,5,64,1000} or exactly the number of distinct keys +-1, fed a history of 1-8 (thorough: 1-16) documents whose object keys come from a structured alphabet of 1-8 keys (common prefix/suffix at equal length, nested prefixes, one differing middle byte, multi-byte runes, single bytes 0x80-0xff, arbitrary bytes, NUL-padding/length-byte collisions, very long keys around 4096/8192/65536 bytes), written by the independent writers in a drawn format and parsed by the real parser under per-document chunk schedules with chunk buffers scribbled after every write, into a drawn map-bearing target type; all targets are inspected only after the whole history; evaluations = histories; distinct by (capacity, format, target, documents, schedules); every history is non-trivial (keys delivered by reference through the cache)",
+		Rule: "one run = one Unfolder with EnableKeyCache(n), n drawn from {0,1,2,3,5,64,1000} or exactly the number of distinct keys +-1, fed a history of 1-8 (thorough: 1-16) documents whose object keys come from a structured alphabet of 1-8 keys (common prefix/suffix at equal length, nested prefixes, one differing middle byte, multi-byte runes, single bytes 0x80-0xff, arbitrary bytes, NUL-padding/length-byte collisions, very long keys around 4096/8192/65536 bytes), written by the independent writers in a drawn format and parsed by the real parser under per-document chunk schedules with chunk buffers scribbled after every write, into a drawn map-bearing target type; all targets are inspected only after the whole history; evaluations = histories; distinct by (capacity, format, target, documents, schedules); every history is non-trivial (keys delivered by reference through the cache); key alphabets include pairs of equal-length keys that collide under twelve common 32-bit string hashes; 1 run in 150 is a wide population (255-300 or 65535-66000 distinct keys on a cache that holds about all of them, then early keys again), 1 in 600 a hot stream (130-66000 records with exactly n keys on a cache of about n, then unseen keys)",
 		Components: map[string][]string{
 			"real": {"gotype.Unfolder incl. symbolCache", "json/ubjson/cborl Parser"},
 			"stub": {"caller-side chunk buffers (simkit.Feed, scribbled)"}},
@@ -103,7 +103,7 @@ func init() {
 	registry["C14"] = &propCfg{
 		Engine: abandon.Engine{}, EngineName: "abandon", Level: "exploration", RacePhaseRuns: 30000,
 		QuickRuns: 200000, ThoroughRuns: 6000000, QuickCapS: 60, ThoroughCapS: 900,
-		Rule: "one run = one (well-formed stream, target type) pair - the stream is the fold of a catalogue value of the target's or another type, a generated stream (typed hints, deep chains), hand-made events for the self-nesting Tree type, 1 in 3 then mutated in the middle (subtree replaced, members rotated or dropped); the target any catalogue type incl. an unsupported one, 1 in 3 pre-populated, 1 in 4 with user-defined unfolders (three styles) - abandoned after k events for EVERY k (24 sampled + complete if >40 events), with announced lengths of still-open containers inflated to {2^16,2^20,2^31-1,2^31,2^40,2^62,2^63-1} in half of the cases; then Reset, SetTarget and a compatible probe document (1 in 3 of the same type); evaluations = (stream,target,k) triples; distinct by (target, delivered prefix, announcements, probe type); all are non-trivial (a crash point or a complete mismatching document); the first 40000 runs are repeated under the -race build",
+		Rule: "one run = one (well-formed stream, target type) pair - the stream is the fold of a catalogue value of the target's or another type, a generated stream (typed hints, deep chains), hand-made events for the self-nesting Tree type, 1 in 3 then mutated in the middle (subtree replaced, members rotated or dropped); the target any catalogue type incl. an unsupported one, 1 in 3 pre-populated, 1 in 4 with user-defined unfolders (three styles) - abandoned after k events for EVERY k (24 sampled + complete if >40 events), with announced lengths of still-open containers inflated to {2^16,2^20,2^31-1,2^31,2^40,2^62,2^63-1} in half of the cases; then Reset, SetTarget and a compatible probe document (1 in 3 of the same type); evaluations = (stream,target,k) triples; distinct by (target, delivered prefix, announcements, probe type); all are non-trivial (a crash point or a complete mismatching document); the first 40000 runs are repeated under the -race build; further scenario kinds: soak (1 in 60), deep (1 in 40: several documents 8-130 levels deep on one unfolder, completed or abandoned, with/without Reset), grown (1 in 300: allocation for an inflated announcement on an unfolder that received an honest array of 1100-300000 elements versus a new one), extreme streams (1 in 1500); bytes lent through OnKeyRef/OnStringRef must come back unchanged",
 		Components: map[string][]string{
 			"real": {"gotype.Unfolder (all generated and reflection based unfolder states, Reset, SetTarget)", "gotype.Fold (stream source)"},
 			"stub": {"the producer (events replayed by the simulator, by value or by reference)"}},
@@ -112,7 +112,7 @@ func init() {
 	registry["C15"] = &propCfg{
 		Engine: alias.Engine{}, EngineName: "alias", Level: "exploration", Race: true,
 		QuickRuns: 30000, ThoroughRuns: 600000, QuickCapS: 50, ThoroughCapS: 900,
-		Rule: "one run = 1-4 documents (values of a string-bearing catalogue type, written by the independent writers in a drawn format) pushed through ONE parser/decoder and ONE unfolder (SetTarget per document, optional key cache) in an environment hostile to aliasing: chunk buffers scribbled after every Write, whole inputs scribbled after Parse/ParseReader/Next, small reused reader buffers, runtime.GC() at seeded event boundaries (GODEBUG=clobberfree=1), -race build with checkptr; 1 run in 5 instead folds a catalogue value into an encoder (a third with user-defined folders, the fold_user.go function-pointer conversion) with and without GC between events; evaluations = scenarios; distinct by (format, entry, target, documents, schedules, GC points); all are non-trivial (every buffer the library saw is destroyed before the targets are read)",
+		Rule: "one run = 1-4 documents (values of a string-bearing catalogue type, written by the independent writers in a drawn format) pushed through ONE parser/decoder and ONE unfolder (SetTarget per document, optional key cache) in an environment hostile to aliasing: chunk buffers scribbled after every Write, whole inputs scribbled after Parse/ParseReader/Next, small reused reader buffers, runtime.GC() at seeded event boundaries (GODEBUG=clobberfree=1), -race build with checkptr; 1 run in 5 instead folds a catalogue value into an encoder (a third with user-defined folders, the fold_user.go function-pointer conversion) with and without GC between events; evaluations = scenarios; distinct by (format, entry, target, documents, schedules, GC points); all are non-trivial (every buffer the library saw is destroyed before the targets are read); a third of the runs unfold every document into the SAME never-cleared target, an eighth repeat a member (duplicate keys), one entry point re-fills ONE caller buffer for every document; user-defined unfolders include one that keeps the string it is handed; bytes lent to the library must come back unchanged",
 		Components: map[string][]string{
 			"real": {"json/ubjson/cborl Parser and Decoder", "gotype.Unfolder", "gotype.Fold", "json/ubjson/cborl Visitor", "internal/unsafe conversions under checkptr"},
 			"stub": {"caller buffers (simkit.Feed / scribbled slices)", "io.Reader (simkit.Reader)", "GC trigger (tap between producer and consumer)"}},
@@ -121,7 +121,7 @@ func init() {
 	registry["C19"] = &propCfg{
 		Engine: conc.Engine{}, EngineName: "conc", Level: "exploration", Race: true, RunsPerProc: 8, GoMaxProcs: "1",
 		QuickRuns: 8000, ThoroughRuns: 300000, QuickCapS: 50, ThoroughCapS: 900,
-		Rule: "one run = 2-6 caller goroutines, each with a seeded program of 1-4 pipeline operations on instances of its own (nine kinds: fold->encoder->writer with per-task JSON encoder options, reader->parser->unfolder incl. documents with members unknown to the target, transcode, fold->unfold, iterator+unfolder reused across values, per-instance custom folder, per-instance custom unfolder inside the shared enclosing type Holder, parse-hostile = corrupted/truncated shared documents, events-encode = generated event streams incl. high-precision values) over shared read-only documents, Go values (always one Inner-bearing value, one map whose key needs HTML escaping, 1-2 values with inline interface/Folder fields) and Go types (incl. two distinct types with the same qualified name), executed under the serialized seeded task scheduler (7 policies) with a task switch possible at every Read, Write (before the buffer is consumed) and visitor event; GOMAXPROCS=1; a worker process executes at most 8 runs; for a quarter of the runs (half in thorough) every task is also executed alone in a fresh process of its own and compared; evaluations = runs; distinct by (interleaving digest, programs) and non-trivial if more task switches than tasks occurred",
+		Rule: "one run = 2-6 caller goroutines, each with a seeded program of 1-4 pipeline operations on instances of its own (nine kinds: fold->encoder->writer with per-task JSON encoder options, reader->parser->unfolder incl. documents with members unknown to the target, transcode, fold->unfold, iterator+unfolder reused across values, per-instance custom folder, per-instance custom unfolder inside the shared enclosing type Holder, parse-hostile = corrupted/truncated shared documents, events-encode = generated event streams incl. high-precision values) over shared read-only documents, Go values (always one Inner-bearing value, one map whose key needs HTML escaping, 1-2 values with inline interface/Folder fields) and Go types (incl. two distinct types with the same qualified name), executed under the serialized seeded task scheduler (7 policies) with a task switch possible at every Read, Write (before the buffer is consumed) and visitor event; GOMAXPROCS=1; a worker process executes at most 8 runs; for a quarter of the runs (half in thorough) every task is also executed alone in a fresh process of its own and compared; evaluations = runs; distinct by (interleaving digest, programs) and non-trivial if more task switches than tasks occurred; fold-encode tasks also draw from a FIXED pool of option-sensitive values, fold large shared typed slices (255-1025 elements), fold values of their OWN of types that go through scratch copies, and register (or not) a user folder for a kind that is unsupported otherwise",
 		Components: map[string][]string{
 			"real": {"gotype.Fold/Iterator/Unfolder incl. reflection-based compilation and type registries", "json/ubjson/cborl Parser and Visitor", "Go race detector (-race) as oracle"},
 			"stub": {"thread scheduler (simkit.Sched: one runnable goroutine at a time, hand-offs hidden from the race detector)", "io.Reader / io.Writer / visitor taps that yield to the scheduler"}},
